@@ -124,10 +124,17 @@ def cases(draw: Any, prop: str, tier: str) -> dict:
     max_depth = 3 if quick else 4
     max_fan = 3 if quick else 4
     n = d.int(1, max_n)
+    shape = None
+    if d.pct(2):
+        # far beyond the usual sizes: one component with dozens of children, or a chain dozens of levels deep
+        shape = d.pick(["wide", "deep"])
+        n = d.pick([34, 36, 40])
     nodes: list[dict] = []
     for i in range(n):
         parent = None
-        if i > 0:
+        if i > 0 and shape:
+            parent = 0 if shape == "wide" else i - 1
+        elif i > 0:
             cand = [j for j in range(i) if _depth(nodes, j) < max_depth and sum(1 for x in nodes if x["parent"] == j) < max_fan]
             parent = d.pick(cand) if cand else 0
         alias = f"c{i}"
@@ -164,15 +171,16 @@ def cases(draw: Any, prop: str, tier: str) -> dict:
     available: list[dict] = []  # publications usable as wait targets by later phases
     scripts: dict[tuple, list[dict]] = {}
     burst_id = [0]
-    max_steps = 4 if quick else 6
-    wait_p = {"C05": 30, "C06": 45, "C07": 25}[prop]
+    max_steps = (4 if quick else 6) if not shape else 2
+    wait_p = {"C05": 30, "C06": 45, "C07": 25}[prop] if not shape else 45
     for (i, ph) in lin:
         node = nodes[i]
         steps: list[dict] = []
         local_avail = list(available)
         for _ in range(d.int(0, max_steps)):
             kind = d.weighted([("sleep", 18), ("cp", 14), ("publish", 26), ("wait", wait_p if local_avail else 0),
-                               ("lookup", 10), ("td", 8), ("svc", 5), ("burst", 6 if prop == "C06" else 1), ("subctx", 7)])
+                               ("lookup", 10), ("td", 8), ("svc", 5), ("burst", 6 if prop == "C06" else 1), ("subctx", 7),
+                               ("many_ctx", 2 if prop == "C06" else 0)])
             if kind == "sleep":
                 steps.append({"op": "sleep", "d": d.int(1, 3)})
             elif kind == "cp":
@@ -222,6 +230,11 @@ def cases(draw: Any, prop: str, tier: str) -> dict:
                 steps.append({"op": "td"})
             elif kind == "subctx":
                 steps.append({"op": "subctx", "n": d.int(0, 2)})  # a unit of work in its own sub-context
+            elif kind == "many_ctx":
+                # dozens of contexts alive at the same time, each publishing something private
+                k = d.pick([20, 64, 70, 100])
+                steps.append({"op": "many_ctx", "k": k, "base": burst_id[0]})
+                burst_id[0] += k
             elif kind == "svc":
                 sv = {"op": "svc"}
                 if d.pct(40):
@@ -379,6 +392,16 @@ class Run:
                     scratch.clear()
                     scratch.append(RBurst)
                     self.ev("publish", path, types=st_["types"], name=st_["eff"], how="factory", made=made)
+            elif op == "many_ctx":
+                from contextlib import AsyncExitStack
+
+                from asphalt.core import Context as _Ctx2
+
+                async with AsyncExitStack() as stack:
+                    for k in range(st_["k"]):
+                        c = await stack.enter_async_context(_Ctx2())
+                        c.add_resource(object(), f"many{st_['base'] + k}", types=[RBurst])
+                    await checkpoints(1)
             elif op == "subctx":
                 from asphalt.core import Context as _Ctx
 
